@@ -7,7 +7,7 @@ use crate::args::{ArgFromValue, Kwargs};
 use crate::errors::{Error, TeraResult};
 use crate::utils::escape_html;
 use crate::value::number::Number;
-use crate::value::{FunctionResult, Key, Map, ValueKind};
+use crate::value::{FunctionResult, Key, Map, ValueKind, ordered_entries};
 use crate::vm::state::State;
 use crate::{HashMap, Value};
 
@@ -552,16 +552,22 @@ pub(crate) fn unique(val: &[Value], _: Kwargs, _: &State) -> Vec<Value> {
 }
 
 pub(crate) fn values(val: &Map, _: Kwargs, _: &State) -> TeraResult<Vec<Value>> {
-    Ok(val.values().cloned().collect())
+    Ok(ordered_entries(val)
+        .into_iter()
+        .map(|(_, v)| v.clone())
+        .collect())
 }
 
 pub(crate) fn keys(val: &Map, _: Kwargs, _: &State) -> TeraResult<Vec<Value>> {
-    Ok(val.keys().map(|k| k.clone().into()).collect())
+    Ok(ordered_entries(val)
+        .into_iter()
+        .map(|(k, _)| k.clone().into())
+        .collect())
 }
 
 pub(crate) fn pairs(val: &Map, _: Kwargs, _: &State) -> TeraResult<Vec<Value>> {
-    Ok(val
-        .iter()
+    Ok(ordered_entries(val)
+        .into_iter()
         .map(|(k, v)| Value::from(vec![Value::from(k.clone()), v.clone()]))
         .collect())
 }
